@@ -407,8 +407,8 @@ impl Monitor for C07 {
         self.directed(t)
             + match t {
                 Tier::Tiny => 10,
-                Tier::Quick => 6_000,
-                Tier::Thorough => 60_000,
+                Tier::Quick => 120000,
+                Tier::Thorough => 1200000,
             }
     }
     fn rule(&self) -> &'static str {
